@@ -285,6 +285,55 @@ def coinbase_tx(
     )
 
 
+def legacy_sighash_message(
+    txins: typing.List[bytes],
+    txin_index: int,
+    txouts: typing.List[bytes],
+    version: int = 1,
+    locktime: int = 0,
+    sighash_flag: int = bits.script.constants.SIGHASH_ALL,
+) -> typing.Optional[bytes]:
+    """
+    Message signed, once the 4 byte sighash flag is appended, for input txin_index of a
+    non-witness transaction, per the original signature hash algorithm
+    https://en.bitcoin.it/wiki/OP_CHECKSIG
+    Args:
+        txins: List[bytes], txins, where the scriptsig of txins[txin_index] is the script code,
+            i.e. the scriptpubkey (or redeem script) of the output it spends
+        txin_index: int, index of the input being signed
+        txouts: List[bytes], txouts
+    Returns:
+        message, or None for SIGHASH_SINGLE without an output at txin_index,
+            in which case the digest to sign is defined to be 1
+    """
+    output_type = sighash_flag & 0x1F
+    masked_txins = []
+    for i, txin_ in enumerate(txins):
+        if i == txin_index:
+            masked_txins.append(txin_)
+        elif sighash_flag & bits.script.constants.SIGHASH_ANYONECANPAY:
+            continue
+        else:
+            # scriptsig of other inputs is emptied
+            sequence = txin_[-4:]
+            if output_type in [
+                bits.script.constants.SIGHASH_NONE,
+                bits.script.constants.SIGHASH_SINGLE,
+            ]:
+                sequence = b"\x00" * 4
+            masked_txins.append(txin(txin_[:36], b"", sequence=sequence))
+    if output_type == bits.script.constants.SIGHASH_NONE:
+        masked_txouts = []
+    elif output_type == bits.script.constants.SIGHASH_SINGLE:
+        if txin_index >= len(txouts):
+            return None
+        # outputs before the one at txin_index are set to value -1, empty script
+        masked_txouts = [b"\xff" * 8 + b"\x00"] * txin_index + [txouts[txin_index]]
+    else:
+        masked_txouts = txouts
+    return tx(masked_txins, masked_txouts, version=version, locktime=locktime)
+
+
 def send_tx(
     sender_addr: bytes,
     recipient_addr: bytes,
@@ -472,26 +521,60 @@ def send_tx(
             ]
         else:
             # p2sh / p2pk / p2pkh / multisig
-            msg = tx_
-            signatures = [bits.sig(key, msg, sighash_flag=sighash_flag) for key in keys]
+            signatures = []
+            for txin_index in range(len(txins)):
+                msg = legacy_sighash_message(
+                    txins,
+                    txin_index,
+                    txouts,
+                    version=version,
+                    locktime=locktime,
+                    sighash_flag=sighash_flag,
+                )
+                if msg is None:
+                    # SIGHASH_SINGLE without corresponding output, digest is uint256 1
+                    sigs = []
+                    for key in keys:
+                        r, s = bits.ecmath.sign(
+                            bits.utils.privkey_int(key),
+                            int.from_bytes((1).to_bytes(32, "little"), "big"),
+                        )
+                        sigs.append(
+                            bits.utils.der_encode_sig(r, s)
+                            + sighash_flag.to_bytes(1, "little")
+                        )
+                    signatures.append(sigs)
+                else:
+                    signatures.append(
+                        [bits.sig(key, msg, sighash_flag=sighash_flag) for key in keys]
+                    )
 
         # form final scriptsig / witnesses
+        sender_scriptsigs = [sender_scriptsig] * len(txins)
         if addr_types[0] == "p2pk":
-            sender_scriptsig = bits.script.script([signatures[0].hex()])
+            sender_scriptsigs = [
+                bits.script.script([signatures[i][0].hex()]) for i in range(len(txins))
+            ]
             sender_witnesses = []
         elif addr_types[0] == "multisig":
-            sender_scriptsig = bits.script.script(
-                ["OP_0"] + [signature.hex() for signature in signatures]
-            )
+            sender_scriptsigs = [
+                bits.script.script(
+                    ["OP_0"] + [signature.hex() for signature in signatures[i]]
+                )
+                for i in range(len(txins))
+            ]
             sender_witnesses = []
         elif addr_types[0] == "p2pkh":
             compressed = True if datums[0] else False
-            sender_scriptsig = bits.script.script(
-                [
-                    signatures[0].hex(),
-                    bits.keys.pub(keys[0], compressed=compressed).hex(),
-                ]
-            )
+            sender_scriptsigs = [
+                bits.script.script(
+                    [
+                        signatures[i][0].hex(),
+                        bits.keys.pub(keys[0], compressed=compressed).hex(),
+                    ]
+                )
+                for i in range(len(txins))
+            ]
             sender_witnesses = []
         elif addr_types[0] in ["p2wpkh", "p2sh-p2wpkh"]:
             sender_witnesses = [
@@ -512,9 +595,14 @@ def send_tx(
                 script_args = []
 
             if addr_types[0] == "p2sh":
-                script_args += [signature.hex() for signature in signatures]
-                script_args += [redeem_script.hex()]
-                sender_scriptsig = bits.script.script(script_args)
+                sender_scriptsigs = [
+                    bits.script.script(
+                        script_args
+                        + [signature.hex() for signature in signatures[i]]
+                        + [redeem_script.hex()]
+                    )
+                    for i in range(len(txins))
+                ]
                 sender_witnesses = []
             elif addr_types[0] in ["p2wsh", "p2sh-p2wsh"]:
                 sender_witnesses = [
@@ -528,11 +616,11 @@ def send_tx(
                 ]
 
         txins_prime = []
-        for txi in txins:
+        for i, txi in enumerate(txins):
             txin_deserialized, _ = txin_deser(txi)
             txid = bytes.fromhex(txin_deserialized["txid"])
             vout = txin_deserialized["vout"]
-            txins_prime.append(txin(outpoint(txid, vout), sender_scriptsig))
+            txins_prime.append(txin(outpoint(txid, vout), sender_scriptsigs[i]))
         tx_ = tx(
             txins_prime,
             txouts,
